@@ -1,4 +1,4 @@
-import MitmVerif.Model.C14_Ref
+import MitmVerif.Lemmas.C14_RefL
 import Driver.Proto
 open MitmVerif Driver MitmVerif.C14
 
@@ -56,10 +56,10 @@ def showCEv : CEv → String
 
 /-- up tokens: maximal runs of SendData are decoded by the reference framing -/
 def showUps : List Up → Bytes → List String
-  | [], acc => let p := Ref.decodeApp (acc.length + 1) acc; if p.isEmpty then [] else ["P" ++ showBytes p]
+  | [], acc => let p := RefL.enc acc; if p.isEmpty then [] else ["P" ++ showBytes p]
   | .send d :: r, acc => showUps r (acc ++ d)
   | u :: r, acc =>
-    let p := Ref.decodeApp (acc.length + 1) acc
+    let p := RefL.enc acc
     let pre := if p.isEmpty then [] else ["P" ++ showBytes p]
     let tok := match u with
       | .close => ["X"] | .openTunnel => ["OT"] | .openServer => ["OS"]
@@ -72,7 +72,7 @@ def joinOr (l : List String) : String := if l.isEmpty then "-" else "+".intercal
 def showSt : TState → String
   | .inactive => "inactive" | .establishing => "establishing" | .open_ => "open" | .closed => "closed"
 
-def runGroups (env : Env Ref.codec) (child : Child) : St Ref.codec → List (List Ev) → List String → St Ref.codec × List String
+def runGroups (env : Env RefL.refCodec) (child : Child) : St RefL.refCodec → List (List Ev) → List String → St RefL.refCodec × List String
   | s, [], acc => (s, acc)
   | s, g :: r, acc =>
     let s' := g.foldl (handle env child) s
@@ -96,8 +96,8 @@ def step (line : String) : String :=
           hl.toNat?, parseChild child, groupSteps (steps.splitOn ",") with
     | some sd, some helloLen, some cs, some evs =>
       if mk ≠ "0" ∧ mk ≠ "1" then "bad-op" else
-      let env : Env Ref.codec :=
-        { mkTls := if mk = "1" then some { client := sd == .server } else none
+      let env : Env RefL.refCodec :=
+        { mkTls := if mk = "1" then some (RefL.refInit (sd == .server)) else none
           parse := fun b => match b.head? with
             | none => .incomplete
             | some t => if t ≠ 0x16 then .invalid else if b.length < helloLen then .incomplete else .complete
